@@ -7,7 +7,7 @@ Require Import Zrs.model.FseDec Zrs.model.SeqSection Zrs.model.BlockEnc Zrs.proo
 Require Import Zrs.model.Matcher Zrs.proofs.C06_Drain Zrs.proofs.C17_Matcher Zrs.proofs.C17_Shape Zrs.proofs.C02_Glue Zrs.proofs.C02_FastBlock.
 Require Import Zrs.model.HufDec Zrs.model.LitEnc Zrs.proofs.C02_Concrete.
 Require Import Zrs.model.SeqNorm Zrs.proofs.C02_O1.
-Require Import Zrs.proofs.C02_HufSide.
+Require Import Zrs.proofs.C02_HufSide Zrs.proofs.C02_O2Table.
 Open Scope Z_scope.
 
 (** level Uncompressed: every input, every fragmentation of the source reads, every block size up to 128 KiB, every
@@ -216,6 +216,21 @@ Theorem C02_huffman_side_conditions_hold_for_every_table : forall ht src t used 
   huf_side_b t (code_of_dec t) lits = true.
 Proof. exact huf_side_holds. Qed.
 
+(** O2 reduced to a comparison of bytes: if the literals section the compressor writes is the section of the model --
+    header, table description, four streams coded with the code read off the table the DECODER builds from that
+    description (or, treeless, off the table the decoder already holds) -- then it meets O2 ([lit_ok]); no condition
+    on the table remains ([built]: it came out of the decoder's builder with at most 255 explicit weights;
+    [deliverable]: every literal is a symbol the table can deliver) *)
+Theorem C02_model_literals_section_meets_O2 : forall h t ty desc lits,
+  built t -> deliverable t lits -> 16 <= Z.of_nat (length lits) <= 131072 ->
+  let code := code_of_dec t in
+  let payload := desc ++ huf4_bytes code lits in
+  (ty = 2 /\ huf_build_decoder h payload = ROk (t, zlen desc)) \/ (ty = 3 /\ desc = [] /\ h = t) ->
+  zlen payload < zlen lits ->
+  lit_ok h lits (huf_lit_header ty (zlen lits) (zlen payload)) payload t.
+Proof. exact model_section_meets_O2. Qed.
+
+Print Assumptions C02_model_literals_section_meets_O2.
 Print Assumptions C02_huffman_side_conditions_hold_for_every_table.
 Print Assumptions C02_fastest_block_step_with_raw_literals.
 Print Assumptions C02_raw_literal_block_decodes.
